@@ -5,7 +5,7 @@ import (
 	"strings"
 )
 
-const c05Rule = "keyword sets of 1..8 keywords over an 8-rune alphabet (a b c space 日 é x y; overlapping, nested, prefix/suffix chains, duplicates, keywords containing the separator, 1..3-byte runes), query texts of 0..12 runes given as a string, a []string or a []interface{} of 1..3 texts (joined by one space); one document per keyword (validates the automaton against substring semantics) and the separator corner (list assignments with empty parts, keywords beginning / ending with / consisting of the separator), texts containing several different keywords, and mixed documents (pattern include/exclude combined with default fields in one conjunction) on the k-groups, compact and roaring indexes. Non-trivial = some query returns a non-empty proper subset of the documents; distinct = distinct input"
+const c05Rule = "keyword sets of 1..8 keywords over an 8-rune alphabet (a b c space 日 é x y; overlapping, nested, prefix/suffix chains, duplicates, keywords containing the separator, 1..3-byte runes), query texts of 0..12 runes given as a string, a []string or a []interface{} of 1..3 texts (joined by one space); half of the cases over TWO pattern fields sharing one keyword set; one document per keyword (validates the automaton against substring semantics) and the separator corner (list assignments with empty parts, keywords beginning / ending with / consisting of the separator), texts containing several different keywords, and mixed documents (pattern include/exclude combined with default fields in one conjunction) on the k-groups, compact and roaring indexes. Non-trivial = some query returns a non-empty proper subset of the documents; distinct = distinct input"
 
 var acAlphabet = []string{"a", "b", "c", " ", "日", "é", "x", "ab"}
 
@@ -84,8 +84,17 @@ func strsTV(r *Rand, ss []string) TV {
 }
 
 // acDocsQueries: a keyword set, documents over a pattern field (1) and a default field (0), and queries.
-// perKeyword: one document per keyword (validates the automaton against substring semantics).
+// perKeyword: half of the cases over TWO pattern fields sharing one keyword set; one document per keyword (validates the automaton against substring semantics).
+// with acTwoPatternFields set, pattern expressions and texts are spread over fields 1 and 2 (both pattern fields)
+var acTwoPatternFields bool
+
 func acDocsQueries(r *Rand, perKeyword bool) ([]eDoc, []eQuery) {
+	patField := func() int {
+		if acTwoPatternFields && r.Bool() {
+			return 2
+		}
+		return 1
+	}
 	i := 1
 	if perKeyword {
 		i = 0
@@ -109,7 +118,7 @@ func acDocsQueries(r *Rand, perKeyword bool) ([]eDoc, []eQuery) {
 						for j := 0; j < m; j++ {
 							sub = append(sub, ks[r.Intn(len(ks))])
 						}
-						cj = append(cj, eExpr{F: 1, Inc: r.Chance(60), V: strsTV(r, sub)})
+						cj = append(cj, eExpr{F: patField(), Inc: r.Chance(60), V: strsTV(r, sub)})
 					} else {
 						cj = append(cj, eExpr{F: 0, Inc: r.Chance(70), V: intsShape(r, randVals(r, 1+r.Intn(2), 4))})
 					}
@@ -124,6 +133,9 @@ func acDocsQueries(r *Rand, perKeyword bool) ([]eDoc, []eQuery) {
 		var a []eAssign
 		if r.Chance(85) {
 			a = append(a, eAssign{F: 1, V: acQueryValue(r, ks)})
+		}
+		if acTwoPatternFields && r.Chance(70) {
+			a = append(a, eAssign{F: 2, V: acQueryValue(r, ks)})
 		}
 		if r.Chance(60) {
 			a = append(a, eAssign{F: 0, V: tvInt("int", r.I64(1, 5))})
@@ -194,14 +206,16 @@ func init() {
 			}
 			acSeparatorCorner(add)
 			for i := 0; i < n; i++ {
+				acTwoPatternFields = i%4 == 1 || i%4 == 3 // two pattern fields: each must keep its own keywords
 				docs, qs := acDocsQueries(r, i%2 == 0)
+				acTwoPatternFields = false
 				switch i % 3 {
 				case 0:
-					add(eCase{Kind: "kgroups", Policy: "error", Configs: map[int]string{1: "ac_matcher"}, Docs: docs, Queries: qs})
+					add(eCase{Kind: "kgroups", Policy: "error", Configs: map[int]string{1: "ac_matcher", 2: "ac_matcher"}, Docs: docs, Queries: qs})
 				case 1:
-					add(eCase{Kind: "compact", Policy: "error", Configs: map[int]string{1: "ac_matcher"}, Docs: docs, Queries: qs})
+					add(eCase{Kind: "compact", Policy: "error", Configs: map[int]string{1: "ac_matcher", 2: "ac_matcher"}, Docs: docs, Queries: qs})
 				default:
-					c := rCase{Fields: []rField{{F: 0, Cont: "default"}, {F: 1, Cont: "ac_matcher"}}, Docs: docs}
+					c := rCase{Fields: []rField{{F: 0, Cont: "default"}, {F: 1, Cont: "ac_matcher"}, {F: 2, Cont: "ac_matcher"}}, Docs: docs}
 					for _, q := range qs {
 						op := "retrieve"
 						if r.Bool() {
